@@ -1188,6 +1188,30 @@ fn gen_corerace(seed: u64, n: usize) {
     }
 }
 
+/// free-running real threads (empty schedule), many rounds of a few fixed histories: races inside regions where the code
+/// holds a lock (no schedule point can lie there) show up only under real parallelism, with a small probability per round
+fn gen_stress(seed: u64, n: usize) {
+    let out = std::io::stdout();
+    let mut out = std::io::BufWriter::new(out.lock());
+    let templates = [
+        // a capability-API task that awaits a follow-up request per stream item: the answer to the follow-up and the next item
+        "(corerace ((1 done (legacy (stream 1 1 0 0 (req 2 2 x1) (notify 3 x2))))) ((ev 1 0) (res 0 100)) ((res 1 200) (res 0 201)) ())",
+        // the same through the command API
+        "(corerace ((1 (task (stream 1 1 0 0 (req 2 2 x1) (notify 3 x2))))) ((ev 1 0) (res 0 100)) ((res 1 200) (res 0 201)) ())",
+        // two requests of two tasks of one command, and of two legacy tasks
+        "(corerace ((1 (and (req 1 0 10) (req 2 0 11)))) ((ev 1 0)) ((res 0 200) (res 1 201)) ())",
+        "(corerace ((1 done (legacy (req 1 1 0) (notify 3 x1)) (legacy (req 1 2 0) (notify 4 x1)))) ((ev 1 0)) ((res 0 200) (res 1 201)) ())",
+        // a stream item and an event
+        "(corerace ((1 (stream 1 0 10)) (2 (event 11 5))) ((ev 1 0)) ((res 0 200) (ev 2 1)) ())",
+    ];
+    let mut r = Rng::new(seed);
+    for _ in 0..n {
+        // mostly the first two (the longest window between taking a waker and publishing an item)
+        let t = if r.chance(3, 5) { r.below(2) as usize } else { r.below(templates.len() as u64) as usize };
+        writeln!(out, "{}", templates[t]).unwrap();
+    }
+}
+
 fn main() {
     let args: Vec<String> = std::env::args().collect();
     match args.get(1).map(String::as_str) {
@@ -1200,6 +1224,7 @@ fn main() {
                 "bridgerace" => gen_bridgerace(seed, n),
                 "abortrace" => gen_race(seed, n, true),
                 "slot" => gen_slot(seed, n),
+                "stress" => gen_stress(seed, n),
                 _ => gen_race(seed, n, false),
             }
         }
